@@ -568,8 +568,9 @@ fn oracle_c12(t: &LspTrace, h: &History, stats: &mut Stats) -> Vec<Violation> {
         if last_inc.died.is_none() {
             let probe_index = t.events.len() - 1;
             if let Some(step) = last_inc.steps.iter().find(|s| s.event == Some(probe_index) && s.label == "didOpen") {
-                let pubs = publish_of(step);
-                let ok = pubs.len() == 1 && pubs[0]["params"]["uri"].as_str() == Some(&expand_uri("ws:probe.st"));
+                let probe_uri = expand_uri("ws:probe.st");
+                let pubs: Vec<&Value> = publish_of(step).into_iter().filter(|p| p["params"]["uri"].as_str() == Some(&probe_uri)).collect();
+                let ok = pubs.len() == 1;
                 if ok {
                     stats.count("c12.recovery_probes_served");
                 } else {
@@ -606,9 +607,11 @@ fn fresh_server_publish(t: &LspTrace, model: &Model, uri: &str, version: i32, se
         return Err(format!("fresh server died: {d}"));
     }
     let step = inc.steps.iter().find(|s| s.label == "target").ok_or("no target step")?;
-    let pubs = publish_of(step);
+    let target_uri = expand_uri(uri);
+    let all = publish_of(step);
+    let pubs: Vec<&Value> = all.iter().copied().filter(|p| p["params"]["uri"].as_str() == Some(&target_uri)).collect();
     if pubs.len() != 1 {
-        return Err(format!("fresh server published {} notifications", pubs.len()));
+        return Err(format!("fresh server published {} notifications for the document", pubs.len()));
     }
     Ok(pubs[0]["params"]["diagnostics"].clone())
 }
@@ -702,9 +705,15 @@ fn oracle_c11(t: &LspTrace, h: &History, stats: &mut Stats) -> Vec<Violation> {
                 return out;
             }
             stats.count("c11.edit_steps");
-            // oracle 1: exactly one publishDiagnostics for that document and version
-            let pubs = publish_of(step);
-            let ok1 = step.outputs.len() == 1 && pubs.len() == 1 && pubs[0]["params"]["uri"].as_str() == Some(&uri) && pubs[0]["params"]["version"].as_i64() == Some(version);
+            // oracle 1: exactly one publishDiagnostics *for that document*, carrying the notification's
+            // version (what else the server chooses to send — publishes for other documents, log
+            // messages — is not constrained by the property and only counted)
+            let all_pubs = publish_of(step);
+            let pubs: Vec<&Value> = all_pubs.iter().copied().filter(|p| p["params"]["uri"].as_str() == Some(&uri)).collect();
+            if step.outputs.len() > pubs.len() {
+                stats.add("c11.other_outputs_in_edit_steps", (step.outputs.len() - pubs.len()) as u64);
+            }
+            let ok1 = pubs.len() == 1 && pubs[0]["params"]["version"].as_i64() == Some(version) && !step.outputs.iter().any(is_response);
             if !ok1 {
                 out.push(viol(
                     "C11",
@@ -1081,7 +1090,8 @@ fn oracle_c15(t: &LspTrace, h: &History, stats: &mut Stats) -> Vec<Violation> {
             let text = uri_path(sym).and_then(|p| model.by_path().get(&p).cloned());
             let Some(text) = text else {
                 // unknown or non-file document: null or an error are both acceptable
-                let acceptable = resp.get("error").map(|e| !e.is_null()).unwrap_or(false) || resp.get("result").map(|r| r.is_null()).unwrap_or(true);
+                let acceptable = resp.get("error").map(|e| !e.is_null()).unwrap_or(false)
+                    || resp.get("result").map(|r| r.is_null() || r["data"].as_array().map(|a| a.is_empty()).unwrap_or(false)).unwrap_or(true);
                 if !acceptable {
                     out.push(viol("C15", "C15/tokens-for-unknown-document".into(), format!("request for never-opened {sym} returned {}", short(resp))));
                 } else {
@@ -1129,7 +1139,8 @@ fn oracle_c15(t: &LspTrace, h: &History, stats: &mut Stats) -> Vec<Violation> {
             match fresh_server_tokens(sym, &text, mix(&[trace_hash, ii as u64, si as u64])) {
                 Ok(fresh) => {
                     stats.count("c15.fresh_server_comparisons");
-                    if fresh != result {
+                    // only the token data is a function of the text (a result id may well count edits)
+                    if fresh["data"] != result["data"] {
                         out.push(viol("C15", "C15/history-dependent".into(), format!("{sym}: after the history the response is {} but a fresh server that only opened the current text answers {}", short(&result), short(&fresh))));
                     }
                 }
